@@ -403,4 +403,64 @@ func genC03(c *Ctx) {
 		}
 		c.Case("overlapping-batches", fmt.Sprintf("expect ok #overlap %d", round), verdict)
 	}
+	// hasher objects with a history: bytes written and left pending, a digest already taken, ComputeHash or Reset used
+	// before. Verify hashes the message alone whatever the hasher went through, so the batch must as well: the valid
+	// signatures of msg are accepted, a signature of pending||msg and a bit flip are not (fixed expected verdicts, and
+	// the same batch once more afterwards with the same object)
+	{
+		pend := []byte("pending bytes ")
+		fresh := crypto.NewExpandMsgXOFKMAC128("batch")
+		var pks []crypto.PublicKey
+		var sigs []crypto.Signature
+		for i := 0; i < 4; i++ {
+			sk := skFromInt(big.NewInt(int64(1000 + i)))
+			pks = append(pks, sk.PublicKey())
+			m := msg
+			if i == 1 {
+				m = append(append([]byte{}, pend...), msg...)
+			}
+			sg, _ := sk.Sign(m, fresh)
+			sigs = append(sigs, sg)
+		}
+		sigs[3] = flipBit(sigs[3], 77)
+		for _, hist := range []string{"fresh", "pending-write", "two-pending-writes", "after-sum", "after-computehash", "after-reset", "write-after-sum"} {
+			hh := crypto.NewExpandMsgXOFKMAC128("batch")
+			switch hist {
+			case "pending-write":
+				_, _ = hh.Write(pend)
+			case "two-pending-writes":
+				_, _ = hh.Write(pend[:5])
+				_, _ = hh.Write(pend[5:])
+			case "after-sum":
+				_, _ = hh.Write(pend)
+				_ = hh.SumHash()
+			case "after-computehash":
+				_ = hh.ComputeHash(pend)
+			case "after-reset":
+				_, _ = hh.Write(pend)
+				hh.Reset()
+			case "write-after-sum":
+				_, _ = hh.Write(pend)
+				_ = hh.SumHash()
+				hh.Reset()
+				_, _ = hh.Write(pend)
+			}
+			for rep := 0; rep < 2; rep++ {
+				ans := guard(func() string {
+					res, err := crypto.BatchVerifyBLSSignaturesOneMessage(pks, sigs, msg, hh)
+					if err != nil {
+						return "err " + errClass(err)
+					}
+					out := fmt.Sprint(res)
+					for i := range pks {
+						if ok, _ := pks[i].Verify(sigs[i], msg, fresh); ok != res[i] {
+							out += fmt.Sprintf(" entry-%d-differs-from-Verify", i)
+						}
+					}
+					return out
+				})
+				c.Case("batch-hasher-history/"+hist, fmt.Sprintf("expect [true false true false] #%s rep %d", hist, rep), ans)
+			}
+		}
+	}
 }
